@@ -3,6 +3,7 @@ package common
 
 import (
 	"encoding/json"
+	"flag"
 	"fmt"
 	"math/big"
 	"math/rand"
@@ -178,4 +179,61 @@ func DedupSorted(xs []int) []int {
 		}
 	}
 	return r
+}
+
+// ---- harness entry point shared by the per-property commands ----
+
+type Ctx struct {
+	Prop   string
+	Out    string
+	Seed   int64
+	Tier   string
+	Replay string
+	Rng    *Rng
+	Res    *Result
+	N      int // optional explicit budget
+}
+
+// Main parses the flags (-out DIR -seed N -tier quick|thorough [-replay FILE] [-n BUDGET]), runs the property
+// harness, writes <out>/result.json and exits (0 = completed, 3 = infrastructure error).
+func Main(prop string, run func(ctx *Ctx) error) {
+	fs := flag.NewFlagSet(prop, flag.ExitOnError)
+	out := fs.String("out", ".", "output directory")
+	seed := fs.Int64("seed", 1, "seed")
+	tier := fs.String("tier", "quick", "quick|thorough")
+	replay := fs.String("replay", "", "replay file")
+	n := fs.Int("n", 0, "budget override")
+	fs.Parse(os.Args[1:])
+	os.MkdirAll(*out, 0o755)
+	ctx := &Ctx{Prop: prop, Out: *out, Seed: *seed, Tier: *tier, Replay: *replay, Rng: NewRng(*seed), Res: NewResult(prop, *seed, *tier), N: *n}
+	err := run(ctx)
+	if err != nil {
+		ctx.Res.Infra("fatal: %v", err)
+	}
+	if werr := ctx.Res.Write(*out); werr != nil {
+		fmt.Fprintln(os.Stderr, "write result:", werr)
+		os.Exit(3)
+	}
+	if err != nil {
+		fmt.Fprintln(os.Stderr, "harness error:", err)
+		os.Exit(3)
+	}
+}
+
+func (c *Ctx) Budget(quick, thorough int) int {
+	if c.N > 0 {
+		return c.N
+	}
+	if c.Tier == "thorough" {
+		return thorough
+	}
+	return quick
+}
+
+// Current records the case about to run (crash attribution).
+func (c *Ctx) Current(canon string, cs interface{}) { c.Res.Current(c.Out, canon, cs) }
+
+// Message builds a small valid RFC 5322 message with a marker (APPEND requires Date and From).
+func Message(marker string, body string) []byte {
+	return []byte("Date: Mon, 01 Jan 2024 10:00:00 +0000\r\nFrom: a@example.com\r\nTo: b@example.com\r\nSubject: " + marker + "\r\nX-Marker: " + marker + "\r\n\r\n" + body + "\r\n")
 }
